@@ -55,7 +55,18 @@ elif "optimal_rotation_to_ref_coords" in label or "align_to_ref_coords" in label
             calls.append(n)
             return np.eye(3) * (n + 1), float(script[n // 2][n % 2])
         ref = ml.Molecule(ens[0]).substructure([0, 1])
-        rmsds, rots = ens.optimal_rotation_to_ref_coords(func, [[0, 1], [1, 2]], ref)
+        seen = []
+
+        def func2(a, b):
+            seen.append(np.array(a))
+            return func(a, b)
+        rmsds, rots = ens.optimal_rotation_to_ref_coords(func2, [[0, 1], [2, 1]], ref)
+        for c in range(nconf):
+            for mi, order in enumerate(([0, 1], [2, 1])):
+                if not np.allclose(seen[2 * c + mi], ens.coords[c][order]):
+                    bad.append(f"conformer {c}, mapping {order}: the fit was given the atoms in another order than the caller's")
+        if bad:
+            break
         want = script.min(axis=1)
         if len(rmsds) != nconf or not np.allclose(rmsds, want):
             k = int(np.argmax(~np.isclose(rmsds, want))) if len(rmsds) == nconf else -1
